@@ -132,8 +132,9 @@ its end operand's span is the span of the first token after the `..` / `..=`, an
 def UExpr.noJoinRange (e : UExpr) : UExpr :=
   match e.cls with
   | .range st lim en =>
-    let st' := st.bind fun _ => e.toks.head?.map (·.sp)
-    let en' := en.bind fun _ => (e.toks.find? fun t => t.sp.startsAtOrAfterEndOf lim).map (·.sp)
+    -- (a bound that is present stays present: should no token be found - which no real expression allows - its joined span is kept)
+    let st' := st.map fun s => (e.toks.head?.map (·.sp)).getD s
+    let en' := en.map fun s => ((e.toks.find? fun t => t.sp.startsAtOrAfterEndOf lim).map (·.sp)).getD s
     -- the `..` / `..=` token itself is several punctuation characters: without `join` its span is the first
     let lim' : Sp := ⟨lim.ls, lim.cs, lim.ls, lim.cs + 1⟩
     { e.noJoin with cls := .range st' lim' en' }
